@@ -272,6 +272,16 @@ func (f *FieldCopyFromGenerator) genObjectListOrMap() *j.Statement {
 			g.Var().Id("t").Id(f.i.WithType(f.GoElemType))
 
 			g.If(j.Id("!v.Null && !v.Unknown")).BlockFunc(func(g *j.Group) {
+				if m.IsEmpty {
+					// A message with no fields has nothing to read but the placeholder,
+					// which does not exist in the target struct
+					if f.IsNullable {
+						// t = &Nested{}
+						g.Id("t").Op("=&").Id(f.i.WithType(f.GoElemTypeIndirect)).Values()
+					}
+					return
+				}
+
 				// tf := v
 				g.Id("tf").Op(":=").Id("v")
 
